@@ -171,6 +171,14 @@ impl<'tcx> Ctx<'tcx> {
     fn constant(&self, c: &ConstOperand<'tcx>) -> J {
         let tcx = self.tcx;
         let ty = c.const_.ty();
+        if let Const::Unevaluated(uv, _) = c.const_ {
+            if let Some(p) = uv.promoted {
+                return obj! {"c": J::s("promoted"), "of": J::s(path(tcx, uv.def)), "index": J::Int(p.index() as i128), "ty": J::s(ty.to_string())};
+            }
+            if matches!(ty.kind(), ty::Adt(..)) && uv.def.is_local() {
+                return obj! {"c": J::s("constitem"), "def": J::s(path(tcx, uv.def)), "ty": J::s(ty.to_string())};
+            }
+        }
         match c.const_.eval(tcx, self.env, c.span) {
             Ok(v) => const_value_json(tcx, v, ty),
             Err(_) => match ty.kind() {
@@ -587,6 +595,11 @@ pub fn dump<'tcx>(tcx: TyCtxt<'tcx>, out: &mut String) {
         let id = format!("G:{}", path(tcx, did));
         cx.body_json(body, id, did, true).line(out);
         n_generic += 1;
+        // promoted constants of this body (`&(0.0..=1.0)` ...): tiny bodies the rules can interpret
+        for (pi, pbody) in tcx.promoted_mir(did).iter_enumerated() {
+            let pid = format!("P:{}:{}", path(tcx, did), pi.index());
+            cx.body_json(pbody, pid, did, true).line(out);
+        }
         if matches!(kind, DefKind::Fn | DefKind::AssocFn) {
             if let Some(args) = default_args(tcx, did, &reps) {
                 // check that the instantiated predicates hold, else skip
@@ -597,6 +610,26 @@ pub fn dump<'tcx>(tcx: TyCtxt<'tcx>, out: &mut String) {
                 }
             }
         }
+    }
+    // bodies of crate-local const items of aggregate type (e.g. `Action::BUY_ALL`)
+    for ld in tcx.hir_crate_items(()).definitions() {
+        let did = ld.to_def_id();
+        if !matches!(tcx.def_kind(did), DefKind::Const { .. } | DefKind::AssocConst { .. }) {
+            continue;
+        }
+        if tcx.hir_maybe_body_owned_by(ld).is_none() || in_derived_serde(tcx, did) {
+            continue;
+        }
+        let ty = tcx.type_of(did).instantiate_identity().skip_normalization();
+        if !matches!(ty.kind(), ty::Adt(..)) {
+            continue;
+        }
+        if tcx.generics_of(did).requires_monomorphization(tcx) {
+            continue;
+        }
+        let body = tcx.mir_for_ctfe(did);
+        let mut cx = Ctx { tcx, env: TypingEnv::post_analysis(tcx, did), mono: false, found: Vec::new() };
+        cx.body_json(body, format!("C:{}", path(tcx, did)), did, true).line(out);
     }
     // monomorphic closure
     let mut seen: FxHashSet<Instance<'tcx>> = FxHashSet::default();
